@@ -285,4 +285,25 @@ PROPS.update({
                      'open / write / close: append-only file text (no durability or crash model)']),
 })
 
+PROPS.update({
+    'C18': dict(
+        level_text='Deductive proof with a ghost lifecycle monitor: every lifecycle call of Decoder.decode (11 call sites: '
+                   'hooks, decode classmethods, add_system, add_agent) carries a call-site assertion over the decoder '
+                   'state and ghost counters - hook present iff its key is present and called before / after its item, '
+                   'model built after the pre-model hook and before everything else, all systems decoded and registered '
+                   '(the very object just created) before any agent, agents created one by one with agent_index = 0 .. '
+                   'n-1 and each added before the next, every system / agent / item-level hook receives the decoded '
+                   'model - and loop invariants over systems, groups and agents carry the counters; the exit state shows '
+                   'every listed item processed exactly once. Name resolution is proved to use the named module.',
+        level_note='The description is an opaque value (uninterpreted reads; item assignments through a ghost overlay: '
+                   'assumes the description is a tree and well-formed); hooks and decode classmethods are user code '
+                   'assumed not to mutate the description; add_system / add_agent are events here (their own contracts '
+                   'are C01 / C04); call sites are keyed by source-order ordinal.',
+        functions=['Decode.Decoder.decode', 'Decode.Decoder.str_to_class', 'Decode.Decoder.str_to_func',
+                   'Decode.Decoder.get_module_name'],
+        assumptions=['the decoded description is well-formed (required keys present) and tree-shaped',
+                     'hooks and decode classmethods do not mutate the description',
+                     'getattr(sys.modules[m], n, None) is a function of (m, n)']),
+})
+
 NOT_APPLICABLE = {}
